@@ -51,27 +51,42 @@ func initTuple() {
 			var start int
 			end := lengthVal.AsInt() - 1
 
+			// a negative bound counts from the end of the collection,
+			// an excluded bound is skipped after that
+			bound := func(v value.Value) int {
+				i := v.AsInt()
+				if i < 0 {
+					return i + length
+				}
+				return i
+			}
+
 			switch r := rangeVal.(type) {
 			case *value.ClosedRange:
-				start = r.Start.AsInt()
-				end = r.End.AsInt()
+				start = bound(r.Start)
+				end = bound(r.End)
 			case *value.LeftOpenRange:
-				start = r.Start.AsInt() + 1
-				end = r.End.AsInt()
+				start = bound(r.Start) + 1
+				end = bound(r.End)
 			case *value.RightOpenRange:
-				start = r.Start.AsInt()
-				end = r.End.AsInt() - 1
+				start = bound(r.Start)
+				end = bound(r.End) - 1
 			case *value.OpenRange:
-				start = r.Start.AsInt() + 1
-				end = r.End.AsInt() - 1
+				start = bound(r.Start) + 1
+				end = bound(r.End) - 1
 			case *value.BeginlessOpenRange:
-				end = r.End.AsInt() - 1
+				end = bound(r.End) - 1
 			case *value.BeginlessClosedRange:
-				end = r.End.AsInt()
+				end = bound(r.End)
 			case *value.EndlessOpenRange:
-				start = r.Start.AsInt() + 1
+				start = bound(r.Start) + 1
 			case *value.EndlessClosedRange:
-				start = r.Start.AsInt()
+				start = bound(r.Start)
+			}
+
+			if start >= 0 && end < start {
+				// nothing lies between the bounds
+				return value.Ref(&value.ArrayTupleOfValue{}), value.Undefined
 			}
 
 			start, err = value.NormalizeArrayIndex(start, length)
